@@ -14,13 +14,16 @@ from harness.common import Ck, coq_bool, coq_list, coq_str, parse_coq_N_list, pa
 from translate import c16_fgd
 
 MANIFEST = dict(
-    technique='Rocq proof (long-string writer/reader for all strings; token-level writers/parsers of keyvalue, spawnflag, choices, '
-              'I/O lines and @resources blocks for every split of long strings, joined to the character level; codec tables, bit '
-              'packings, whole binary records, blocks, file header and block positions; lazy database = eager database for all query '
-              'orders including what stored base names are replaced by) + fail-closed ast translator (constants, escape table, decisive '
-              'writer branches, I/O skeletons of the (un)serialisers, shape of get_ent/_parse_block/get_fgd) + vm_compute correspondence '
-              '(byte-exact for binary records and blocks of the shipped file; token-exact for text lines) + export/parse/export, binary and '
-              'lazy-loading oracles on the bundled database, generated FGDs and hand-built databases',
+    technique='Rocq proof (long-string writer/reader for all strings; token-level writers/parsers of the entity header (bases / aliasof, '
+              'helpers, class name, description), of keyvalue, spawnflag, choices, I/O lines and @resources blocks for every split of long '
+              'strings, joined to the character level and composed into a whole entity definition; codec tables, bit packings, whole '
+              'binary records, blocks, file header and block positions; lazy database = eager database for all query orders including '
+              'what stored base names are replaced by; a LIST of databases: first-hit look-up = first-wins merge for all histories) + '
+              'fail-closed ast translator that normalises before matching (constants, escape table, decisive writer branches read off '
+              'all paths, I/O skeletons of the (un)serialisers, shape of get_ent/_parse_block/get_fgd, shape of the engine_def loop and '
+              'of the engine_dbase merge) + vm_compute correspondence (byte-exact for binary records and blocks of the shipped file; '
+              'token-exact for text lines and entity headers; histories over several hand-built databases) + export/parse/export, '
+              'binary and lazy-loading oracles on the bundled database, generated FGDs, hand-built databases and added databases',
     text='Theorems in Props/C16.v. Text: for every text, indent and line tail the reader (_handle_string and the "+" continuation of '
          '_read_colon_list) returns exactly what _write_longstring wrote, the writer never writes nothing, keeps every section within LIMIT '
          'and never cuts between a backslash and its symbol (extended syntax: all texts; plain syntax: texts without ", \\ and CR); at the '
@@ -28,27 +31,36 @@ MANIFEST = dict(
          'every spawnflag item (generated [n] label removed again) and choices item, every input/output line and every @resources '
          'block (undefined / defined-empty / non-empty) that the writers emit is parsed back to the same field values, for every split '
          'of the long strings into "+" sections, and with display name and description produced by _write_longstring the parser returns '
-         'exactly the two texts; the single-colon and only-non-empty-resources writer variants are refuted. Binary: VALUE_TYPE_ORDER/'
+         'exactly the two texts; the entity header (base()/aliasof() with any number of bases, any list of helpers with or without '
+         'arguments, class name, description) is read back as the same bases, alias flag, helper objects, name and description, and '
+         'header + body compose into the round trip of a whole entity definition; the single-colon and only-non-empty-resources writer '
+         'variants are refuted. Binary: VALUE_TYPE_ORDER/'
          'FILE_TYPE_ORDER indexes, "index|128" bytes, EntFlags, spawnflag powers, BinStrDict indexes, 16-bit indexes, separator-joined '
          'lists; composed into ent_unserialise(ent_serialise(e) ++ rest) = (e, rest) for whole definitions and whole blocks with the '
          'block dictionary, the file header and the block positions. Lazy: for every query sequence on a fresh database the answers '
          '(definition AND what every stored base name was replaced by, alias chains across blocks included) equal those of the fully '
-         'loaded database; base look-ups terminate; the ent_map-look-up variant is refuted. The objects the theorems quantify over are '
+         'loaded database; base look-ups terminate; the ent_map-look-up variant is refuted. Several databases (add_engine_database): '
+         'for every list of files and every history of EntityDef.engine_def() look-ups the answers equal FGD.engine_dbase() when the '
+         'merge keeps the first definition of a class, both are the content of the first file that defines it, and the overwriting '
+         'merge (dict.update) is refuted on every class whose first and last definitions differ. The objects the theorems quantify over are '
          'regenerated from the source on every run and kernel-checked as named instance obligations; all hand models are compared with the '
          'implementation on generated and shipped data; the whole bundled database and generated FGDs are exported, parsed and exported '
-         'again, serialised to the binary format and back, and queried lazily in random orders.',
-    note='Still search only: entity headers (class kind, base()/aliasof(), helpers), snippets, @MaterialExclusion/@AutoVisgroup, the order of '
-         'lines inside an entity, and the character-level lexing of everything except quoted strings (bare words, punctuation, comments): '
-         'the line models work on the token stream of the real Tokenizer and are tied to KVDef.export/_parse etc. by token-exact '
-         'correspondence (also on mutated token lists), not by a translator-generated core. Value types, tags and numbers are abstract in '
-         'the line theorems; their premises are checked exhaustively on the real tables (data obligations). Block decoding in the lazy model is '
-         'a parameter (a function of the block bytes), lzma is outside the model, compute_ent_strings/build_blocks (how entities are '
-         'grouped into blocks) are not modelled. Accepted normalisations of the text form: I/O types decay (VALUE_TO_IO_DECAY), empty BOOL '
+         'again, serialised to the binary format and back (also as small databases that exercise the overflow blocks), queried lazily in '
+         'random orders, and queried with an added database in front of the bundled one.',
+    note='Still search only: snippets, @MaterialExclusion/@AutoVisgroup and autovis() helpers, the `@PointClass` keyword line of FGD.parse_file, '
+         'FGD.sorted_ents, and the character-level lexing of everything except quoted strings (bare words, punctuation, comments): '
+         'the line and header models work on the token stream of the real Tokenizer and are tied to the exporters/parsers by token-exact '
+         'correspondence (also on mutated token lists), not by a translator-generated core. Helper objects, value types, tags and numbers '
+         'are abstract in the theorems; their premises are checked on the real tables / generated helpers (data obligations). Block decoding '
+         'in the lazy model is a parameter (a function of the block bytes), lzma is outside the model, compute_ent_strings/build_blocks (how '
+         'entities are grouped into blocks) are not modelled (searched with small generated databases), deepcopy in engine_def/engine_dbase '
+         'and FGD.apply_bases after the merge are outside the model. The translator assumes that attribute loads are plain field reads and '
+         'that the str methods it inlines have no effects. Accepted normalisations of the text form: I/O types decay (VALUE_TO_IO_DECAY), empty BOOL '
          'default = "0", yes/no = 1/0, kv_order is compared as effective order, newlines in choice/flag names become spaces, '
          'custom_syntax=False drops tags/resources/extension helpers/aliasof and cannot represent ", \\ or CR in texts. Quick tier runs the '
          'bundled database under 2 of the 4 option sets (all 4 in the thorough tier and whenever a tie is broken). Trusted: Coq kernel + '
-         'vm_compute, translate/c16_fgd.py, hand models Fmt/LongString.v, Fmt/FgdBin.v, Fmt/FgdBinEnt.v, Fmt/FgdLine.v, SM/LazyDb.v (tied by '
-         'correspondence), the real Tokenizer as lexer of the line correspondences, CPython.',
+         'vm_compute, translate/c16_fgd.py, hand models Fmt/LongString.v, Fmt/FgdBin.v, Fmt/FgdBinEnt.v, Fmt/FgdLine.v, Fmt/FgdBody.v, '
+         'Fmt/FgdHead.v, SM/LazyDb.v, SM/LazyDbMulti.v (tied by correspondence), the real Tokenizer as lexer of the line correspondences, CPython.',
 )
 
 IMPORTS = ['Coq.NArith.NArith', 'Coq.Lists.List', 'Coq.Strings.String', 'Coq.Bool.Bool', 'Coq.Arith.Arith', 'SV.Fmt.LongString', 'SV.Fmt.FgdBin', 'SV.Fmt.FgdBinEnt', 'SV.Fmt.FgdLine', 'SV.Fmt.FgdBody', 'SV.Fmt.FgdHead', 'SV.Fmt.FgdEntity', 'SV.SM.LazyDb', 'SV.SM.LazyDbMulti',
@@ -2682,6 +2694,24 @@ class StageCk:
             getattr(ck, ev[0])(*ev[1:])
 
 
+def theorems_part(c: Any, part: int, nparts: int) -> None:
+    """Ck.theorems('Props/C16.v') for every nparts-th theorem starting at `part` (Print Assumptions walks the whole proof of each
+    theorem: about 0.7 s each, so the list is shared between the lanes).  Same records as Ck.theorems: obligation `theorem:<name>`
+    and the axioms of each."""
+    import re
+    from harness.common import ROCQ, _split_assumptions
+    names = re.findall(r'^\s*(?:Theorem|Lemma|Corollary)\s+([A-Za-z0-9_\']+)', (ROCQ / 'Props/C16.v').read_text(), re.M)[part::nparts]
+    body = 'Require Import SV.Props.C16.\n' + ''.join(f'Print Assumptions {n}.\n' for n in names)
+    rc, out = c.coq_scratch(body, f'assumptions{part}')
+    if rc != 0:
+        c.obligation(f'assumptions:Props/C16.v:{part}', False, out[-2000:])
+        c.tie_broken.append('Print Assumptions failed for Props/C16.v')
+        return
+    for n, b in zip(names, _split_assumptions(out, len(names))):
+        c.axioms[n] = b
+        c.obligation(f'theorem:{n}', True, 'Qed; axioms: ' + ('none (closed under the global context)' if not b else ', '.join(b)))
+
+
 def run_stages(ck: Ck, lanes: list[list[tuple[str, Callable[..., Any], tuple]]]) -> Callable[[], bool]:
     """Start one thread per lane; a lane runs its stages one after the other.  Returns a function that waits for all of them, merges
     what the stages recorded in the order of the lists (lane by lane) and says whether any of them broke a tie."""
@@ -2721,11 +2751,17 @@ def run(ck: Ck) -> None:
                'lines: generated keyvalue / IO lines and @resources blocks (every value type, tags, long strings rare) as token lists, each also '
                'with 1-2 random token mutations, non-trivial = more than 6 tokens; lazy: random permutations/samples of classes (aliases '
                'always included, cross-block aliases first) on fresh databases and hand-built databases with cross-block alias chains, '
-               'cycles and fans, non-trivial = more than one query')
-    ck.trusted.append('hand-written models Fmt/LongString.v, Fmt/FgdBin.v, Fmt/FgdBinEnt.v, Fmt/FgdLine.v, SM/LazyDb.v (tied by differential '
+               'cycles and fans, non-trivial = more than one query; entity headers: 0-3 bases (30% aliases), 0-5 helpers from a pool of '
+               'real helper types (with and without arguments, halfgridsnap, unknown and extension helpers), descriptions empty / short / '
+               'special / long, as written and with 1-2 token mutations, non-trivial = more than 6 tokens; several databases: 2-3 '
+               'hand-built databases over 8 class names that overlap, alias bases inside and across blocks, histories of engine_def '
+               'queries then engine_dbase(), and generated override databases put in front of the bundled one (add_engine_database), '
+               'non-trivial = a class defined in two databases is queried')
+    ck.trusted.append('hand-written models Fmt/LongString.v, Fmt/FgdBin.v, Fmt/FgdBinEnt.v, Fmt/FgdLine.v, Fmt/FgdBody.v, Fmt/FgdHead.v, SM/LazyDb.v, SM/LazyDbMulti.v (tied by differential '
                       'correspondence on every run; decisive branches and layouts read from the source by the translator)')
     ck.trusted.append('srctools.tokenizer.Tokenizer as the lexer of the text-line correspondences (only quoted strings are modelled at character level)')
-    ck.trusted.append('entity headers, helpers, snippets and the order of lines inside an entity are outside every model: covered by search only')
+    ck.trusted.append('snippets, autovis() helpers, the @Kind keyword and the order of lines inside an entity are outside every model: covered by search only; '
+                      'helper objects are abstract in the header model (HELPER_IMPL[..].parse tabulated per run)')
     ck.assumptions += [
         'ent_unserialise is a function of the block bytes and the immutable shared strings (parameter `decode` of c16_lazy_equals_eager)',
         'lzma.compress/decompress are inverse (outside the model)',
@@ -2735,6 +2771,11 @@ def run(ck: Ck) -> None:
         'binary record theorem: spawnflag masks are powers of two below 2^128, SPAWNFLAGS keyvalues carry no default and other keyvalues no '
         'flag list (what the parser produces); the format does not carry descriptions, helpers, keyvalue tags, kv_order, reportable',
         'custom_syntax=False cannot represent ", \\ and CR in texts, nor tags/resources/extension helpers/aliasof (documented loss)',
+        'entity header theorem: base names and helper arguments are non-empty, stripped, without commas; bases are distinct; no helper is called '
+        'base/aliasof/autovis; HELPER_IMPL[type].parse(export()) gives the helper back (checked on the generated helpers as a data obligation)',
+        'translator normalisation: attribute loads are plain field reads, callees do not re-assign fields of their arguments, the str methods '
+        'casefold/lower/upper/strip/... have no effects (single-assignment locals bound to such expressions are inlined before matching)',
+        'several databases: every database is an independent LazyDb; deepcopy of the answers and FGD.apply_bases() after the merge are outside the model',
         'accepted normalisations: I/O type decay, empty BOOL default = "0", effective keyvalue order, newline -> space in choice/flag names',
     ]
     ok_t = timed('translate', ck.translate, 'FgdConsts_gen', c16_fgd.translate)
@@ -2761,18 +2802,19 @@ def run(ck: Ck) -> None:
         # The tie stages are coqc processes plus case generation; the searches are pure Python.  Two lanes of tie stages run
         # beside the searches (see StageCk: private random streams, buffered records, so nothing depends on timing).
         join = run_stages(ck, [
-            [('theorems', lambda c: c.theorems('Props/C16.v'), ()),
+            [('theorems_0', theorems_part, (0, 2)),
              ('instance_obligations', lambda c: c.instance_obligations(IMPORTS, INSTANCE_OBLIGATIONS, name='c16'), ()),
              ('data_obligations', data_obligations, (data, tb)),
-             ('corr_writer_reader', corr_writer_reader, ())],
-            [('corr_binary_records', corr_binary_records, (data, tb)),
+             ('corr_writer_reader', corr_writer_reader, ()),
+             ('corr_bits', corr_bits, ()),
+             ('corr_strdict', corr_strdict, ()),
+             ('corr_lazy', corr_lazy, (data, tb, via)),
+             ('corr_multi', corr_multi, (via, bool(multi_side.get('effective_first', True))))],
+            [('theorems_1', theorems_part, (1, 2)),
+             ('corr_binary_records', corr_binary_records, (data, tb)),
              ('line_data_obligations', line_data_obligations, ()),
              ('corr_lines', corr_lines, ()),
-             ('corr_head', corr_head, ()),
-             ('corr_lazy', corr_lazy, (data, tb, via)),
-             ('corr_multi', corr_multi, (via, bool(multi_side.get('effective_first', True)))),
-             ('corr_bits', corr_bits, ()),
-             ('corr_strdict', corr_strdict, ())],
+             ('corr_head', corr_head, ())],
         ])
 
     def searches() -> None:
@@ -2829,6 +2871,10 @@ def run(ck: Ck) -> None:
     if any(k.startswith('lazy-multi-db') for k in keys):
         ck.explain('correspondence:multi_db')
         ck.explain('instance:multi_db_')
+    if any(k.startswith('lazy-base-unresolved') for k in keys):
+        # bases left as bare names inside one database also show in the histories over several databases (the model in the
+        # ent_map mode leaves them unresolved in the whole database too, FGD.apply_bases() resolves them there): same mechanism
+        ck.explain('correspondence:multi_db')
 
 
 # =============================================================================================== replay
